@@ -474,7 +474,10 @@ def deser_res(xs):
 
 SYN_PATHS = [("/Event:TMcEvent/m_mdcMcHitCol", "TMdcMc", False), ("/Event:TDstEvent/m_tofTrackCol", "TTofTrack", False),
              ("/Event:TDigiEvent/m_mdcDigiCol", "TMdcDigi", True), ("/Event:TDigiEvent/m_emcDigiCol", "TEmcDigi", True),
-             ("/Event:TRecEvent/m_recMdcHitCol", "TRecMdcHit", False), ("/Event:THltEvent/m_hltRawCol", "THltRaw", False)]
+             ("/Event:TRecEvent/m_recMdcHitCol", "TRecMdcHit", False), ("/Event:THltEvent/m_hltRawCol", "THltRaw", False),
+             # every digi collection of TDigiEvent, also those that are empty in all shipped files
+             ("/Event:TDigiEvent/m_tofDigiCol", "TTofDigi", True), ("/Event:TDigiEvent/m_mucDigiCol", "TMucDigi", True),
+             ("/Event:TDigiEvent/m_cgemDigiCol", "TCgemDigi", True), ("/Event:TDigiEvent/m_lumiDigiCol", "TLumiDigi", True)]
 
 
 def gen_synthetic(ck, n_cases):
@@ -482,7 +485,7 @@ def gen_synthetic(ck, n_cases):
     g = Syn(rng)
     cases, coq = [], [SER_PRELUDE]
     for k in range(n_cases):
-        path, cls, digi = rng.choice(SYN_PATHS)
+        path, cls, digi = SYN_PATHS[k] if k < len(SYN_PATHS) else rng.choice(SYN_PATHS)      # every registered kind at least once
         c = g.make_class(cls, digi)
         nev = rng.choice([1, 2, 3, 5, 8, 20] if k % 7 else [40])
         evs, expect = [], []
